@@ -337,3 +337,83 @@ func r17RefusalTableComplete(c *cx, id string) {
 	n := len(f.CallsDeep("ibb.errorResponder.Error"))
 	c.r.Check(id, f, "number of refusals", "T: four refusal replies, one per row of the table of C15.2", f.Pos(), n == 4, "handlePayload writes "+itoaPos(token.Pos(n))+" different refusals")
 }
+
+// r17FailedParseResultUnused (C07.23): when stanza.NewIQ / NewMessage /
+// NewPresence report an error, the value they return is whatever had been
+// filled in before the attribute that failed - its Type, ID and addresses are
+// not the stanza's. On the error edge of such a call in the multiplexer the
+// value is not used: a router that decides "this is a result, do not answer"
+// by the Type of a half-parsed IQ answers <iq to="@@" type="result"/> with an
+// error IQ.
+func r17FailedParseResultUnused(c *cx, id string) int {
+	n := 0
+	for _, f := range c.allFns() {
+		if !strings.HasPrefix(f.Short, "mux.") {
+			continue
+		}
+		g := f.Graph()
+		for _, callee := range []string{"stanza.NewIQ", "stanza.NewMessage", "stanza.NewPresence"} {
+			for _, cl := range f.Calls(callee) {
+				as, ok := g.Parent(cl).(*ast.AssignStmt)
+				if !ok || len(as.Lhs) != 2 {
+					continue
+				}
+				val := g.LocalVar(as.Lhs[0])
+				if val == nil {
+					continue
+				}
+				cp, _ := g.Where(cl)
+				nrm := f.Norm(cl, &cp)
+				for _, ce := range g.EdgesMatching("!eq(" + nrm + "#1,nil)") {
+					n++
+					bad := ""
+					for _, nd := range g.ReachableNodes(g.EdgeTarget(ce.E), nil) {
+						ast.Inspect(nd, func(x ast.Node) bool {
+							if idn, ok := x.(*ast.Ident); ok && f.Info().Uses[idn] == val {
+								bad = f.Prog.NodeStr(nd) + " at " + f.Prog.Pos(nd.Pos())
+							}
+							return bad == ""
+						})
+					}
+					c.r.Check(id, f, "value of a failed "+callee, "G: on the error edge of the parse the half-filled stanza value is not used", cl.Pos(), bad == "", "used in "+bad)
+				}
+			}
+		}
+	}
+	return n
+}
+
+// r17RuneLengthsInBytes (C17.16): token boundaries are byte offsets. A function
+// of the styling package that walks the characters of its input with a range
+// over a string and counts with ++ counts characters: for a non-ASCII white
+// space after '>' the quote-start token then ends in the middle of a UTF-8
+// sequence, and where depends on how the reads were split.
+func r17RuneLengthsInBytes(c *cx, id string) int {
+	n := 0
+	for _, f := range c.allFns() {
+		if !strings.HasPrefix(f.Short, "styling.") {
+			continue
+		}
+		f.WalkBody(func(nd ast.Node) bool {
+			rs, ok := nd.(*ast.RangeStmt)
+			if !ok {
+				return true
+			}
+			t := f.Info().TypeOf(rs.X)
+			if t == nil || t.Underlying().String() != "string" {
+				return true
+			}
+			n++
+			bad := ""
+			ast.Inspect(rs.Body, func(x ast.Node) bool {
+				if inc, ok := x.(*ast.IncDecStmt); ok && inc.Tok == token.INC {
+					bad = f.Prog.NodeStr(inc)
+				}
+				return true
+			})
+			c.r.Check(id, f, "length counted over the characters of a string", "K: lengths that become token boundaries advance by the byte size of each character", rs.Pos(), bad == "", bad+" counts characters, not bytes")
+			return true
+		})
+	}
+	return n
+}
